@@ -9,7 +9,8 @@ six configurations), C08 (-g differential) and C11 (debug-map structure).
 import itertools
 
 # conditions: variables (never folded) and constants (folded at -O1+)
-CONDS = {'vt': 'zt%', 'vf': 'zf%', 'c1': '1', 'c0': '0', 'cmp': 'zv% = 2'}
+CONDS = {'vt': 'zt%', 'vf': 'zf%', 'c1': '1', 'c0': '0', 'cmp': 'zv% = 2',
+         'v2': 'zv%', 'fl': 'zh!', 'c5': '5'}          # true values other than -1 (2, 0.5, 5)
 
 # templates: (name, text with {c} condition, {X}/{Y}/{Z} body slots, {n} unique number)
 TEMPLATES = [
@@ -84,7 +85,7 @@ PLACEMENTS = ('gosub', 'sub', 'function')
 
 
 def program(mk, placement):
-    head = ['DIM SHARED zt%, zf%, zv%, zq%, zs$', 'zt% = -1', 'zf% = 0', 'zv% = 2', 'zs$ = "b"', 'PRINT "m0"']
+    head = ['DIM SHARED zt%, zf%, zv%, zq%, zs$, zh!', 'zt% = -1', 'zf% = 0', 'zv% = 2', 'zs$ = "b"', 'zh! = 0.5', 'PRINT "m0"']
     main = mk(1) + 'PRINT "m1"\nFOR zk% = 1 TO 3\n' + mk(2) + 'NEXT\nPRINT "m2"\n'
     if placement == 'gosub':
         rest = 'GOSUB zg\nPRINT "m3"\nGOSUB zg\nPRINT "m4"\nEND\nzg:\n' + mk(3) + 'RETURN\n'
@@ -118,7 +119,7 @@ def sample(n, seed, always_empty=True):
     if always_empty:
         for tag, text in allp:
             name, ck, fill = tag.split('|')[:3]
-            if set(fill) <= {'0'} and name not in seen and ck in ('vt', 'vf', '-', 'c1'):
+            if set(fill) <= {'0'} and name not in seen and ck in ('vt', 'vf', '-', 'c1'):  # (other conditions come from the random part)
                 seen.add(name)
                 must.append((tag, text))
     rest = [p for p in allp if p not in must]
